@@ -263,3 +263,33 @@ func BadT5Xor(acc, src []byte) {
 	acc = append(acc[:0], (*buf)[2:]...)
 	_ = acc
 }
+
+// ---- T6 ---------------------------------------------------------------------------------------------------------------
+
+func (r *refRing) dropSlot(idx int) {
+	if prev := r.slots[idx]; prev != nil {
+		prev.Release()
+	}
+}
+
+// GoodT6Skip releases the occupants of the skipped slots and empties the slots; the final slot gets the new packet.
+func (r *refRing) GoodT6Skip(from, to int, p *refPkt) {
+	for i := from; i != to; i++ {
+		idx := i % len(r.slots)
+		r.dropSlot(idx)
+		r.slots[idx] = nil
+	}
+	idx := to % len(r.slots)
+	r.dropSlot(idx)
+	r.slots[idx] = p
+}
+
+// BadT6Skip lost the `= nil` when the release moved into the helper: the skipped slots keep their released packets.
+func (r *refRing) BadT6Skip(from, to int, p *refPkt) {
+	for i := from; i != to; i++ {
+		r.dropSlot(i % len(r.slots))
+	}
+	idx := to % len(r.slots)
+	r.dropSlot(idx)
+	r.slots[idx] = p
+}
